@@ -102,6 +102,12 @@ class E:
             return "only " + ",".join(enc(n) for n in a[1]) + " " + a[0].tokens()
         if k == "exclude":
             return "exclude " + enc(a[1]) + " " + a[0].tokens()
+        if k in ("rawand", "rawor"):
+            return ("M " if k == "rawand" else "U ") + str(len(a)) + "".join(" " + x.tokens() for x in a)
+        if k == "empty":
+            return "E"
+        if k == "any":
+            return "A"
         raise ValueError(k)
 
     def run(self):
@@ -116,6 +122,14 @@ class E:
             return a[0].run().only(*a[1])
         if k == "exclude":
             return a[0].run().without_extras() if (a[1] == "extra" and len(a) > 2) else a[0].run().exclude(a[1])
+        if k == "rawand":
+            return MultiMarker(*[x.run() for x in a])
+        if k == "rawor":
+            return MarkerUnion(*[x.run() for x in a])
+        if k == "empty":
+            return EmptyMarker()
+        if k == "any":
+            return AnyMarker()
         raise ValueError(k)
 
     def show(self) -> str:
@@ -126,6 +140,10 @@ class E:
             return f"({a[0].show()} {'&' if k == 'and' else '|'} {a[1].show()})"
         if k == "only":
             return f"{a[0].show()}.only({','.join(a[1])})"
+        if k in ("rawand", "rawor"):
+            return ("MultiMarker(" if k == "rawand" else "MarkerUnion(") + ", ".join(x.show() for x in a) + ")"
+        if k in ("empty", "any"):
+            return "<" + k + ">"
         return f"{a[0].show()}.exclude({a[1]})"
 
     def leaves(self):
@@ -143,7 +161,7 @@ class E:
     @staticmethod
     def from_json(j):
         return E(j[0], *[E.from_json(x) if isinstance(x, list) and x and isinstance(x[0], str) and x[0] in
-                         ("leaf", "and", "or", "only", "exclude") else (tuple(x) if isinstance(x, list) else x) for x in j[1:]])
+                         ("leaf", "and", "or", "only", "exclude", "rawand", "rawor", "empty", "any") else (tuple(x) if isinstance(x, list) else x) for x in j[1:]])
 
 
 class Timeout(Exception):
